@@ -296,7 +296,9 @@ func skipFirstWhitespace(box Box, skipStack tree.ResumeStack) (tree.ResumeStack,
 	}
 
 	if skipStack != nil {
-		panic(fmt.Sprintf("unexpected skip inside %s", box.Type()))
+		// resuming inside an atomic inline-level box split between pages
+		// (inline-flex, inline-grid) : there is no white space to skip
+		return skipStack, false
 	}
 
 	return nil, false
